@@ -41,8 +41,12 @@ def main():
     src, sid, prop = sys.argv[1], sys.argv[2], sys.argv[3]
     checks = sys.argv[4:] or [prop]
     patch = os.path.abspath(os.path.join(src, 'patch.diff'))
+    ported = os.path.abspath(os.path.join(src, 'patch_ported.diff'))
+    if os.path.exists(ported):    # same change, re-based by hand after a later fix: commit touched the same lines
+        patch = ported
     demo = os.path.abspath(os.path.join(src, 'demo.py'))
-    meta = {'id': sid, 'property': prop, 'source': 'independent sub-agent given only the property text'}
+    meta = {'id': sid, 'property': prop, 'source': 'independent sub-agent given only the property text',
+            'rebased': os.path.basename(patch) != 'patch.diff'}
     notes = os.path.join(src, 'notes.txt')
     meta['needs'] = open(notes).read().strip() if os.path.exists(notes) else ''
     # ---- confirmation in a scratch worktree
